@@ -17,8 +17,14 @@ pub open spec fn rev_cat(parts: Seq<Seq<u8>>, k: int) -> Seq<u8> decreases k {
 pub open spec fn outs_parts(t: Seq<Transition>, os: nat) -> Seq<Seq<u8>> { Seq::new(t.len(), |i: int| le_bytes(t[i].out.0 as nat, os)) }
 pub open spec fn delta_parts(t: Seq<Transition>, addr: usize, ts: nat) -> Seq<Seq<u8>> { Seq::new(t.len(), |i: int| le_bytes(delta(addr, t[i].addr) as nat, ts)) }
 pub open spec fn inp_parts(t: Seq<Transition>) -> Seq<Seq<u8>> { Seq::new(t.len(), |i: int| seq![t[i].inp]) }
+/// the 256-entry transition index after the first k transitions have been entered into the all-255 table
+pub open spec fn idx_upto(t: Seq<Transition>, k: int) -> Seq<u8>
+    decreases k
+{
+    if k <= 0 { Seq::new(256, |b: int| 255u8) } else { idx_upto(t, k - 1).update(t[k - 1].inp as int, (k - 1) as u8) }
+}
 /// index[b] = position of the (last) transition on b, else 255
-pub uninterp spec fn index_table(t: Seq<Transition>) -> Seq<u8>;
+pub open spec fn index_table(t: Seq<Transition>) -> Seq<u8> { idx_upto(t, t.len() as int) }
 
 /// forward layout of an any-trans node, field by field
 pub open spec fn f_ao(n: &BuilderNode) -> bool { any_out(n.trans@, n.final_output.0, n.trans@.len() as int) }
